@@ -98,18 +98,18 @@ def lengths_of(raw, plain=None):
     return m["content_len"], None, None
 
 
-def one_world(R, level, label, param, auth_pw=rig.AUTH_PW, priv_pw=rig.PRIV_PW, engine_id=None, boots=1, tshift=0, ops=("get",), pad=0, cover=None, user=rig.USER, extra=0, small_ids=False):
+def one_world(R, level, label, param, auth_pw=rig.AUTH_PW, priv_pw=rig.PRIV_PW, engine_id=None, boots=1, tshift=0, ops=("get",), pad=0, cover=None, user=rig.USER, extra=0, small_ids=False, switch_from=None):
     global BASE
     if small_ids:
         extra = 0
         env.CLOCK.freeze(100.0)
     try:
-        return _one_world(R, level, label, param, auth_pw, priv_pw, engine_id, boots, tshift, ops, pad, cover, user, extra, small_ids)
+        return _one_world(R, level, label, param, auth_pw, priv_pw, engine_id, boots, tshift, ops, pad, cover, user, extra, small_ids, switch_from)
     finally:
         env.CLOCK.freeze(1_700_000_000.0)
 
 
-def _one_world(R, level, label, param, auth_pw, priv_pw, engine_id, boots, tshift, ops, pad, cover, user, extra, small_ids):
+def _one_world(R, level, label, param, auth_pw, priv_pw, engine_id, boots, tshift, ops, pad, cover, user, extra, small_ids, switch_from=None):
     global BASE
     BASE = (1, 3, 6, 1, 2, 1, 1) if label != "len" else (1, 3)
     db = {
@@ -125,13 +125,32 @@ def _one_world(R, level, label, param, auth_pw, priv_pw, engine_id, boots, tshif
         akw["engine_id"] = engine_id
     agent_clock = env.Clock()
     agent_clock.now = 1_000_000.0
-    w = World(level, db, agent_kwargs=akw, cred_kwargs={"auth_pw": auth_pw, "priv_pw": priv_pw, "user": user}, clock=agent_clock)
+    extra_users = []
+    if switch_from:
+        extra_users.append(rig.agent_user_for(switch_from, user="previous", auth_pw=auth_pw, priv_pw=priv_pw))
+    w = World(level, db, agent_kwargs=akw, cred_kwargs={"auth_pw": auth_pw, "priv_pw": priv_pw, "user": user}, clock=agent_clock, extra_users=extra_users)
     agent_clock.now += tshift  # engine time at discovery
     discovered = (boots, w.agent.engine_time())
     w.seam.budget = 80
+    if switch_from:
+        # ONE client object: it first works as another user of the same engine (other
+        # authentication protocol / level, same passwords) and is then switched to the
+        # user under test by configure()
+        from puresnmp import Client as _Client, PyWrapper as _PyWrapper
+
+        cl = _Client("192.0.2.1", rig.credentials_for(switch_from, user="previous", auth_pw=auth_pw, priv_pw=priv_pw), sender=w.seam)
+        pre = rig.outcome(lambda: drive(cl.get(OID(BASE + (5, 0)))))
+        if pre[0] != "ok":
+            R.inconclusive("prelude as the previous user failed: %r" % (pre[1],))
+            return
+        cl.configure(credentials=w.creds)
+        w.client, w.py = cl, _PyWrapper(cl)
+        w.seam.reset(budget=80)
+        w.agent.requests.clear()
+        R.mon["clients_switched_from_another_user"] += 1
     c = w.client
-    case = {"level": level, "label": label, "param": param, "auth_pw": "hex:" + bytes(auth_pw).hex(), "priv_pw": "hex:" + bytes(priv_pw).hex(), "engine_id": "hex:" + (engine_id or b"").hex(), "boots": boots, "tshift": tshift, "ops": list(ops), "pad": pad, "user": user, "extra": extra, "small_ids": small_ids}
-    R.case(("c10", level, label, param), True, sample=case if R.evaluations % 211 == 0 else None)
+    case = {"level": level, "label": label, "param": param, "auth_pw": "hex:" + bytes(auth_pw).hex(), "priv_pw": "hex:" + bytes(priv_pw).hex(), "engine_id": "hex:" + (engine_id or b"").hex(), "boots": boots, "tshift": tshift, "ops": list(ops), "pad": pad, "user": user, "extra": extra, "small_ids": small_ids, "switch_from": switch_from}
+    R.case(("c10", level, label, param, switch_from), True, sample=case if R.evaluations % 211 == 0 else None)
     for op in ops:
         try:
             if op == "get2":
@@ -305,6 +324,15 @@ def run(R):
             eng = bytes([0x80]) + bytes(rng.getrandbits(8) for _ in range(n - 1))
             one_world(R, level, "eidlen", n, engine_id=eng, ops=("get", "set"))
             R.mon["engine_id_lengths_swept"] += 1
+    # (e) one client object used as another user first (other hash / other level)
+    for level in levels4:
+        for prev in rig.V3_LEVELS:
+            if prev == level:
+                continue
+            k += 1
+            if not R.mine(k):
+                continue
+            one_world(R, level, "switch", rig.V3_LEVELS.index(prev), ops=("get", "getnext", "set"), switch_from=prev)
     if R.shard == 0:
         for level in levels4:
             reboot_scenario(R, level)
@@ -336,5 +364,5 @@ def replay(R, v):
         R, c["level"], c["label"], c["param"],
         auth_pw=bytes.fromhex(c["auth_pw"][4:]), priv_pw=bytes.fromhex(c["priv_pw"][4:]),
         ops=tuple(c.get("ops", ("get",))) if "op" not in c else (c["op"],), pad=c["pad"], boots=c["boots"], tshift=c["tshift"],
-        engine_id=bytes.fromhex(c["engine_id"][4:]) or None, user=c.get("user", rig.USER), extra=c.get("extra", 0), small_ids=c.get("small_ids", False),
+        engine_id=bytes.fromhex(c["engine_id"][4:]) or None, user=c.get("user", rig.USER), extra=c.get("extra", 0), small_ids=c.get("small_ids", False), switch_from=c.get("switch_from"),
     )
